@@ -33,6 +33,7 @@ warnings.filterwarnings("ignore")
 TOL = 1e-9
 WORKERS = 8
 KNOWN_EMPTY_FOLD = "empty-fold-slice-in-chunk"
+BREW_N = 200      # rows of brew_table
 
 CONSTS = {
     "conf": ("mokapot.confidence", "CONFIDENCE_CHUNK_SIZE"),
@@ -200,13 +201,26 @@ def diff_scores(ref, got):
 def classify(exc, cfg):
     """stable case id for a run that raised"""
     msg = str(exc)
-    if isinstance(exc, ValueError) and "No PSMs were detected" in msg and cfg.get("consts", {}).get("pred"):
+    if isinstance(exc, ValueError) and "No PSMs were detected" in msg \
+            and 0 < cfg.get("consts", {}).get("pred", 0) < BREW_N:
         return KNOWN_EMPTY_FOLD
     return "run-failed-%s" % type(exc).__name__
 
 
+_WARM = []
+
+
+def _warm_up():
+    """numba compiles mokapot.qvalues._fdr2qvalue at its first call (~3 s): do it once, before forking"""
+    if not _WARM:
+        from mokapot.qvalues import tdc
+        tdc(np.array([3.0, 2.0, 1.0]), np.array([True, False, True]))
+        _WARM.append(1)
+
+
 def _pool_map(fn, items):
     import multiprocessing as mp
+    _warm_up()
     if WORKERS <= 1 or len(items) < 4:
         return [fn(c) for c in items]
     with mp.get_context("fork").Pool(WORKERS) as pool:
@@ -289,14 +303,14 @@ def check_confidence_chunks(tier, seed):
     if tier == "quick":
         must = [c for c in rest if c["fmt"] == "csv" and c["workers"] == 1 and len(c["consts"]) == 1]
         other = [c for c in rest if c not in must]
-        rest = must + rng.sample(other, 60)
+        rest = must + rng.sample(other, 40)
     ck = ClassCheck("confidence_chunks", "mokapot.confidence.assign_confidence, mokapot.utils.merge_sort",
                "%d runs on one table of %d PSMs (30 spectra x 3 adjacent PSMs, seed %d, fixed tie-free scores): "
                "CONFIDENCE_CHUNK_SIZE and MERGE_SORT_CHUNK_SIZE one at a time over {1,2,3,n-1,n,n+1} plus 6 random "
                "pairs, max_workers {1,2,4}, text / Parquet row groups {1,3,n}, de-duplication and rollup on/off "
                "(%s); each compared with text/1 worker/default constants"
                % (len(rest), n, seed, "full grid" if tier != "quick" else
-                  "quick: all one-at-a-time sweeps for text/1 worker + 60 sampled grid points"),
+                  "quick: all one-at-a-time sweeps for text/1 worker + 40 sampled grid points"),
                "equality of all result files with the reference run; non-trivial = several chunks, or another "
                "format / worker count than the reference")
     refs = {}
@@ -337,7 +351,7 @@ def check_duplicates_across_chunks(tier, seed):
     """explicit form of the last sentence of the property: the PSMs of one spectrum in one chunk vs in several"""
     df, _ = conf_table(seed)
     n, dup, n_spec = len(df), 3, 30
-    top = 8 if tier == "quick" else 24
+    top = 6 if tier == "quick" else 24
     ck = ClassCheck("duplicates_same_vs_different_chunk", "mokapot.confidence.assign_confidence",
                "exhaustive: CONFIDENCE_CHUNK_SIZE in 1..%d and {n-1,n} x de-duplication on/off x rollup on/off x "
                "text/Parquet, 1 worker, one table of %d PSMs (30 spectra x 3 adjacent PSMs, seed %d); reference: "
@@ -376,13 +390,13 @@ def check_tied_scores(tier, seed):
     df, _ = conf_table(seed, ties=True)
     n = len(df)
     ck = ClassCheck("tied_scores_chunks", "mokapot.confidence.assign_confidence, mokapot.utils.merge_sort",
-                    "exhaustive: CONFIDENCE_CHUNK_SIZE in {1,2,3,5,7,30,n-1,n} x text/Parquet(3) x de-duplication "
+                    "exhaustive: CONFIDENCE_CHUNK_SIZE in {1,2,3,7,30,n} x text/Parquet(3) x de-duplication "
                     "on/off, 1 worker, on the %d-PSM table of confidence_chunks (seed %d) in which the best PSMs of "
                     "three different spectra score exactly 0.0; reference: text, default constants" % (n, seed),
                     "equality of all result files; non-trivial = the three tied PSMs lie in different chunks "
                     "(every size below 31)")
     cfgs = [dict(seed=seed, dedup=dd, rollup=True, consts={"conf": c}, workers=1, fmt=fmt, ties=True)
-            for dd in (True, False) for fmt in ("csv", "pq3") for c in (1, 2, 3, 5, 7, 30, n - 1, n)]
+            for dd in (True, False) for fmt in ("csv", "pq3") for c in (1, 2, 3, 7, 30, n)]
     refs = {dd: run_confidence(dict(seed=seed, dedup=dd, rollup=True, consts={}, workers=1, fmt="csv", ties=True))
             for dd in (True, False)}
     for cfg, r in zip(cfgs, _pool_map(run_confidence, cfgs)):
@@ -516,11 +530,11 @@ def run_brew(cfg):
     return _brew_once(brew_table(cfg["seed"]), cfg)
 
 
-def _judge_brew(ck, cfg, r, ref):
+def _judge_brew(ck, cfg, r, ref, tag=None):
     if "error" in r:
         ck.violation(classify(r["error"], cfg), "brew/assign_confidence raised %r" % r["error"], cfg)
         return
-    tag = _tag(cfg)
+    tag = tag or _tag(cfg)
     if r["descs"] != ref["descs"]:
         ck.violation("scores-depend-on-%s" % tag, "score direction %s vs %s" % (r["descs"], ref["descs"]), cfg)
         return
@@ -621,7 +635,7 @@ def check_thread_timing(tier, seed):
         if "error" in ref:
             ck.violation("reference-run-failed", repr(ref["error"]), ref_of(cfg))
             continue
-        _judge_brew(ck, cfg, r, ref)
+        _judge_brew(ck, cfg, r, ref, tag="thread-timing")
     # chunk writer tasks of assign_confidence
     ccfgs = [dict(seed=seed, dedup=bool(k % 2), rollup=True, consts={"conf": 7}, workers=4, fmt="csv", sleep=k)
              for k in range(2 * reps)]
@@ -639,7 +653,7 @@ def check_thread_timing(tier, seed):
         else:
             d = diff_results(cref[cfg["dedup"]]["files"], r["files"])
             if d:
-                ck.violation(TIE_CASE.get(d[0], "result-files-depend-on-timing"), d[1], cfg)
+                ck.violation(TIE_CASE.get(d[0], "result-files-depend-on-thread-timing"), d[1], cfg)
     return ck
 
 
@@ -743,7 +757,8 @@ def REPLAY(check_name, violation):
             ck.violation("differs", repr(r.get("error", "description differs")), inp)
     else:
         return {"violated": None, "note": "no replay for %s" % check_name}
-    return {"violated": bool(ck.violations), "detail": ck.violations[:3]}
+    found = ck.result()["violations"]
+    return {"violated": bool(found), "detail": found[:3]}
 
 
 if __name__ == "__main__":
